@@ -43,6 +43,14 @@ def jobs(tier, seed):
 
 
 def make_target(rng, d):
+    kind, tgt = _make_target(rng, d)
+    if rng.random() < 0.3:
+        tgt = mc.OffsetTarget(tgt, rng.choice([-1.0, 1.0]) * 10.0 ** rng.uniform(2, 6.5))
+        kind += "+offset"
+    return kind, tgt
+
+
+def _make_target(rng, d):
     kind = str(rng.choice(["gauss", "banana", "gamma"])) if d >= 2 else str(rng.choice(["gauss", "gamma"]))
     if kind == "gauss":
         A = rng.normal(size=(d, d))
@@ -179,7 +187,7 @@ def build(kind, target, tkind, d, rng, T, bounded, seed, shared=None, few_attemp
     """Returns (sampler, dict of input arrays handed to the constructor)."""
     inputs = shared or {}
     if not inputs:
-        inputs["start"] = np.abs(rng.normal(size=d)) * 0.5 + 0.1 if tkind == "gamma" else rng.normal(size=d) * 0.5
+        inputs["start"] = np.abs(rng.normal(size=d)) * 0.5 + 0.1 if tkind.startswith("gamma") else rng.normal(size=d) * 0.5
         inputs["widths"] = rng.uniform(0.3, 2.0, size=d)
         if bounded:
             inputs["lower"] = inputs["start"] - rng.uniform(0.5, 3, size=d)
@@ -192,9 +200,9 @@ def build(kind, target, tkind, d, rng, T, bounded, seed, shared=None, few_attemp
         inputs["positions"] = pos
         if not bounded and rng.random() < 0.25:
             # integer-typed starting values (start=[1, 0, 2] is what a user types): same numbers, must behave as floats
-            inputs["start"] = (np.rint(inputs["start"] * 4) + (1 if tkind == "gamma" else 0)).astype(np.int64)
+            inputs["start"] = (np.rint(inputs["start"] * 4) + (1 if tkind.startswith("gamma") else 0)).astype(np.int64)
             pi = np.rint(pos * 6) + (np.arange(nw)[:, None] == np.arange(d)[None, :] + 1)   # keeps the walkers affinely independent
-            inputs["positions"] = (np.abs(pi) + 1 if tkind == "gamma" else pi).astype(np.int64)
+            inputs["positions"] = (np.abs(pi) + 1 if tkind.startswith("gamma") else pi).astype(np.int64)
     from inference.mcmc import GibbsChain, PcaChain, HamiltonianChain, EnsembleSampler
     from inference.mcmc.gibbs import MetropolisChain
 
